@@ -5,6 +5,7 @@ TLC checks NoCapture, StaysCompilable and friends for every program in bounds, e
 and Trace_Rename.tla judging the real renamer on every enumerated program: spelling of every occurrence read back by tag,
 Python's rules evaluated on input and output by TLC, plus compile() and a run of both programs.
 """
+import os
 import random
 
 from ..common import main_wrapper
@@ -15,7 +16,8 @@ PID = 'C03'
 
 def run(args, rep):
     rng = random.Random(args.seed)
-    _rename.model(rep, args.tier, deep=True)
+    # the two-name model (22.4 M states, 50 minutes on 16 idle cores) is run on request only: VERIF_DEEP_MODEL=1
+    _rename.model(rep, args.tier, deep=bool(os.environ.get('VERIF_DEEP_MODEL')))
     progs, total = _rename.programs(args.tier, rng)
     optsets = [('TT', {'rl': True, 'rg': True}), ('TF', {'rl': True, 'rg': False}), ('FT', {'rl': False, 'rg': True})]
     skipped = _rename.observe_and_judge(rep, progs, optsets, ['c03:'], 'C03', rng)
